@@ -560,10 +560,17 @@ def _(w, e):
         if isinstance(dl, dict):
             # {"pick": seed, "k": n}: a seeded choice among the names present when the call is made
             import random as _random
-            names = sorted(d.name for lib in n.libraries for d in lib.definitions if d.name is not None)
-            rr = _random.Random(dl["pick"])
-            dl = rr.sample(names, min(len(names), dl["k"])) if names else []
-        opts["definition_list"] = list(dl)
+            # the caller's list object is made once per (run, choice) and handed to every compose of the run that
+            # names it: a writer must not use it up
+            cache = w.deflists
+            key = (dl["pick"], dl["k"], id(n))
+            if key not in cache:
+                names = sorted(d.name for lib in n.libraries for d in lib.definitions if d.name is not None)
+                rr = _random.Random(dl["pick"])
+                cache[key] = rr.sample(names, min(len(names), dl["k"])) if names else []
+            opts["definition_list"] = cache[key]
+        else:
+            opts["definition_list"] = list(dl)
     if e.get("via") == "method":
         n.compose(e["path"], **opts)       # the shortcut spelling of sdn.compose(netlist, ...)
     else:
